@@ -84,11 +84,9 @@ impl Hsla {
 fn deg_mod(value: f64) -> f64 {
     let turn = 360.;
     let value = value % turn;
-    if value.is_sign_negative() {
-        value + turn
-    } else {
-        value
-    }
+    let value = if value < 0. { value + turn } else { value.abs() };
+    // A tiny negative value plus a full turn rounds to a full turn.
+    if value >= turn { 0. } else { value }
 }
 
 impl Display for Formatted<'_, Hsla> {
